@@ -83,6 +83,7 @@ def run(idx: ProgramIndex, rep: Report, tier: str):
     picklable_closures(idx, rep)
     mirrored_buffers(idx, rep)
     closures_use_their_argument(idx, rep)
+    deepcopy_overrides(idx, rep)
 
 
 # ---- C18-7 ---------------------------------------------------------------------------------------------------------
@@ -536,6 +537,33 @@ def pickling(idx: ProgramIndex, rep: Report):
                 rep.add("C18-4", inst, dc.where, ok, "deep copy yields None: legal because the holder treats None as 'recompute' (%s)" % why if ok else
                         "__deepcopy__ returns None for a class that is not a droppable prediction cache", {})
                 continue
+            # the whole-state form: a new instance whose dictionary is filled entry by entry from self.__dict__
+            loops = [l for l in ast.walk(dc.node) if isinstance(l, ast.For) and "__dict__" in src(l.iter)]
+            if loops:
+                probs = []
+                memo_name = dc.params[1] if len(dc.params) > 1 else "memo"
+                if not any(isinstance(a2, ast.Assign) and any(isinstance(t2, ast.Subscript) and src(t2.value) == memo_name and "id(%s)" % dc.params[0] in src(t2.slice) for t2 in a2.targets) for a2 in ast.walk(dc.node)):
+                    probs.append("the copy is not entered into the memo before its members are copied: an object that refers back to this one is duplicated")
+                shared = set()
+                for l in loops:
+                    for a2 in ast.walk(l):
+                        if isinstance(a2, ast.Assign) and any(isinstance(t2, ast.Subscript) and "__dict__" in src(t2.value) for t2 in a2.targets):
+                            v2 = a2.value
+                            is_dc = isinstance(v2, ast.Call) and (chain(v2.func) or "").split(".")[-1] == "deepcopy"
+                            if is_dc and len(v2.args) < 2 and not v2.keywords:
+                                probs.append("members are deep-copied without the memo: objects the surrounding model also references are duplicated")
+                            if not is_dc:
+                                for t3, pos in _enclosing_pairs(l, a2):
+                                    if pos:
+                                        shared |= {c3.value for c3 in ast.walk(t3) if isinstance(c3, ast.Constant) and isinstance(c3.value, str)}
+                                if not _enclosing_pairs(l, a2):
+                                    probs.append("every member is handed to the copy as it is: the copy shares its state with the original")
+                known_caches = {a for c_, a, w in c03.attribute_caches(idx) if cls.is_subclass_of(c_)}
+                for nm in sorted(shared):
+                    if nm not in known_caches and not nm.startswith("_cached"):
+                        probs.append("`%s` is shared between the original and the copy but is not a cache" % nm)
+                rep.add("C18-4", inst, dc.where, not probs, "whole instance dictionary copied through the memo; only caches (%s) are shared" % ", ".join(sorted(shared)) if not probs else "; ".join(sorted(set(probs))), {"shared": sorted(shared)})
+                continue
             init = cls.lookup("__init__")
             params = [p for p in init.params[1:]] if init else []
             ctor = [c for c in calls_in(dc.node) if src(c.func) in ("self.__class__", cls.name, "type(self)")]
@@ -907,3 +935,74 @@ def closures_use_their_argument(idx: ProgramIndex, rep: Report):
                 "works on its module argument `%s`" % params[0] if not captured else
                 "the closure %s(%s) built for the string form of register_prior refers to `%s`, the module that registered the prior, instead of its argument: functions are atoms for copy.deepcopy, so a deep copy of the model evaluates (and sets) this prior on the ORIGINAL module - its objective drifts when the original trains on, and the prior's gradient goes to the original" % (name, ", ".join(params), me), {})
     rep.floor("C18-12", "closures stored with priors", n, 30)
+
+
+# ---- C18-13 --------------------------------------------------------------------------------------------------------
+def deepcopy_overrides(idx: ProgramIndex, rep: Report):
+    """Deep-copying is one of the round trips.  The default protocol copies the whole instance dictionary; an override has to carry at
+    least as much.  (a) An override that REBUILDS the object with the class constructor carries only what the constructor takes: priors
+    and constraints registered afterwards, requires_grad flags, buffers set later are lost.  (b) An override that returns nothing drops
+    the object (the owner re-creates it from its own state later): whoever plants a hand-built instance of such a class on another
+    object stores state that deep-copying silently discards."""
+    rep.rule("C18-13", "a __deepcopy__ override carries the whole instance state (it does not rebuild the object from constructor arguments), and no hand-built object of a class whose __deepcopy__ drops it is the only holder of prediction-relevant state")
+    n = 0
+    droppers = []
+    for fi in sorted(idx.all_functions(), key=lambda f: (f.module.name, f.qualname)):
+        if fi.cls is None or fi.name != "__deepcopy__":
+            continue
+        n += 1
+        sn = fi.params[0]
+        body = body_without_docstring(fi.node)
+        rets = [r for r in ast.walk(fi.node) if isinstance(r, ast.Return) and r.value is not None and not (isinstance(r.value, ast.Constant) and r.value.value is None)]
+        if not rets:
+            droppers.append(fi.cls)
+            rep.add("C18-13", "%s:%s.__deepcopy__[drops the object]" % (fi.module.name, fi.qualname.rsplit(".", 1)[0]), fi.where, True,
+                    "returns None: the copy does not get this object (its owner rebuilds it); holders are checked below", {}, trivial=True)
+            continue
+        rebuilds = [c for c in calls_in(fi.node) if chain(c.func) in ("%s.__class__" % sn, "type(%s)" % sn) or (isinstance(c.func, ast.Name) and c.func.id == fi.cls.name)]
+        copies_dict = any(isinstance(x, ast.Attribute) and x.attr == "__dict__" for x in ast.walk(fi.node)) or any(isinstance(c.func, ast.Attribute) and c.func.attr in ("__reduce_ex__", "__getstate__") for c in calls_in(fi.node))
+        ok = not rebuilds or copies_dict
+        rep.add("C18-13", "%s:%s.__deepcopy__[whole state]" % (fi.module.name, fi.qualname.rsplit(".", 1)[0]), fi.where, ok,
+                "copies the instance dictionary" if ok else
+                "the copy is rebuilt with `%s(...)` from %d constructor argument(s): priors / constraints registered on the object afterwards, requires_grad flags and later buffers are not carried (deepcopy of an SGPR model with a prior on the inducing points: MLL -1.0281 vs -0.9575 for the copy; frozen inducing points become trainable)" % (src(rebuilds[0].func), len(rebuilds[0].args) + len(rebuilds[0].keywords)), {})
+    rep.floor("C18-13", "__deepcopy__ overrides", n, 2)
+    # (b) planters of objects whose class drops them on deepcopy
+    names = {c.name for c in droppers} | {k.name for c in droppers for k in idx.subclasses(c)}
+    attr_of_dropper = set()
+    for fi in idx.all_functions():
+        for a in ast.walk(fi.node):
+            if isinstance(a, ast.Assign) and isinstance(a.value, ast.Call) and (chain(a.value.func) or "").split(".")[-1] in names | {"prediction_strategy"}:
+                for t in a.targets:
+                    if isinstance(t, ast.Attribute):
+                        attr_of_dropper.add(t.attr)
+    m = 0
+    for fi in sorted(idx.all_functions(), key=lambda f: (f.module.name, f.qualname)):
+        if fi.cls is None:
+            continue
+        sn = fi.params[0] if fi.params else None
+        planted = []
+        for a in ast.walk(fi.node):
+            if not isinstance(a, ast.Assign):
+                continue
+            for t in a.targets:
+                if isinstance(t, ast.Attribute) and t.attr in attr_of_dropper and isinstance(t.value, ast.Name) and t.value.id != sn \
+                        and not (isinstance(a.value, ast.Constant) and a.value.value is None):
+                    planted.append((t, a))
+        if not planted:
+            continue
+        # the exact GP's own fantasy path plants a strategy on a copy that holds the data it was built from (inputs and targets are
+        # extended on the copy): a rebuild gives the same strategy.  Elsewhere the planted object is built from quantities the target
+        # object does not hold.
+        rebuilt_from_owner = fi.cls.name == "ExactGP"
+        m += 1
+        t, a = planted[-1]
+        rep.add("C18-13", "%s:%s[plants .%s on another object]" % (fi.module.name, fi.qualname, t.attr), "%s:%d" % (fi.module.relpath, a.lineno), rebuilt_from_owner,
+                "planted on a copy that holds the data the object was built from" if rebuilt_from_owner else
+                "line %d stores a hand-built object whose class drops itself on deepcopy (__deepcopy__ returns None) in .%s of another object: the state it was built from (pseudo-observation covariance, hand-made mean cache) lives nowhere else on that object, so copy.deepcopy of the returned model predicts something else (posterior mean 0.3344 vs 0.1618)" % (a.lineno, t.attr), {})
+    rep.floor("C18-13", "functions planting droppable objects on other objects", m, 2)
+
+
+def _enclosing_pairs(root: ast.AST, target: ast.AST):
+    """[(test, in_true_branch)] of the if statements between root and target"""
+    from .c10 import _tests_around
+    return _tests_around(root, target)
